@@ -3,6 +3,7 @@ package sim
 import (
 	"encoding/json"
 	"fmt"
+	"os"
 	"testing/synctest"
 	"time"
 
@@ -72,6 +73,9 @@ func (c *Cluster) exec(s *Step) {
 	c.inner = NewRNG(Mix(c.seed^0x5bd1e995, uint64(c.stepNo)))
 	c.steps = append(c.steps, s)
 
+	if debugTrace {
+		fmt.Fprintf(os.Stderr, "step %d: %s\n", c.stepNo, s.String())
+	}
 	c.net.deliverLate()
 
 	func() {
@@ -237,7 +241,7 @@ func (c *Cluster) startJoin(a, via *SimNode) {
 	if via != nil {
 		c.net.pickID = via.id
 	}
-	t := &task{id: len(c.tasks), kind: "join", n: a}
+	t := &task{id: len(c.tasks), kind: "join", n: a, via: via}
 	c.tasks = append(c.tasks, t)
 	a.task = t
 	nd := a.node
@@ -302,6 +306,8 @@ func (c *Cluster) opLeave(s *Step) {
 // opFairCycle: one deterministic all-pairs round among live, non-silent
 // babbling nodes: every one pulls from and pushes to every other.
 func (c *Cluster) opFairCycle(s *Step) {
+	c.fairMode = true
+	c.fairCount++
 	live := c.liveBabbling()
 	for _, a := range live {
 		for _, b := range live {
@@ -321,6 +327,27 @@ func (c *Cluster) opFairCycle(s *Step) {
 		}
 		if a.running() && len(selectablePeers(a)) == 0 && a.state() == _state.Babbling {
 			a.node.SimMonologue()
+		}
+	}
+	// a cycle of exchanges takes time (timers of parked operations: leave polls every 100 ms)
+	time.Sleep(150 * time.Millisecond)
+	synctest.Wait()
+	c.runWakeups()
+	// nodes the Run loop would be driving through CatchingUp / Joining
+	for _, n := range c.nodes {
+		if !n.running() || n.silent {
+			continue
+		}
+		switch n.state() {
+		case _state.CatchingUp:
+			err := n.node.SimFastForward()
+			c.onFastForwardDone(n, err)
+		case _state.Joining:
+			if n.task == nil || n.task.done {
+				if len(live) > 0 {
+					c.startJoin(n, live[c.stepNo%len(live)])
+				}
+			}
 		}
 	}
 }
